@@ -3,7 +3,7 @@
 import numpy as np
 
 from ..core import violation, Discard, ddmin_list
-from ..gen_scenes import gen_chain_scene, gen_rod_scene
+from ..gen_scenes import gen_chain_scene, gen_rod_scene, gen_contact_scene
 from ..scenes import build
 from ..seams import Sim
 from ..session import DYNAMIC, gen_solver, project_velocities, run_solver, solver_options, check_solution_shape, require_regular
@@ -52,9 +52,31 @@ def gen_rod(rng, tier, index):
     return {"scene": scene, "solver": solver, "kind": "rod"}
 
 
+FAULT_SITES = {"Moreau": ["moreau.fp"], "Rattle": ["rattle.fp1", "rattle.fp2", "fsolve"], "BackwardEuler": ["be.fp", "fsolve"]}
+
+
+def gen_faulted(rng, tier, index):
+    """Sessions that go on after a failed iteration (continue_with_unconverged, forced fixed-point / Newton
+    failures at a few steps): the steps stored then are stored steps like any other for the quaternion clause."""
+    name = ["Moreau", "Rattle", "BackwardEuler"][index % 3]
+    scene = gen_contact_scene(rng, nspheres=int(rng.integers(1, 3)), allow_s2s=False)
+    for b in scene["bodies"]:
+        if b["kind"] == "rigid":
+            b["w"] = (np.array(b["w"]) + rng.normal(size=3) * 3).tolist()
+    steps = int(rng.integers(10, 40))
+    dt = float(10 ** rng.uniform(-2.7, -2.0))
+    solver = gen_solver(rng, name, steps, dt, tight=False, buggify=False, contacts=True)
+    solver["options"].update(continue_with_unconverged=True, fixed_point_max_iter=30)
+    sites = FAULT_SITES[name]
+    faults = [[str(sites[int(rng.integers(len(sites)))]), int(rng.integers(1, steps + 1)), 1] for _ in range(int(rng.integers(2, 6)))]
+    return {"scene": scene, "solver": solver, "kind": "faulted", "faults": faults}
+
+
 def gen(rng, tier, index):
     if (index // len(DYNAMIC)) % 5 == 4:
         return gen_rod(rng, tier, index)
+    if (index // len(DYNAMIC)) % 5 == 2 and index % 2 == 0:
+        return gen_faulted(rng, tier, index // 2)
     name = DYNAMIC[index % len(DYNAMIC)]
     scene = gen_chain_scene(rng, rigid_only=False)
     if not scene["joints"]:
@@ -103,7 +125,7 @@ def quat_norms(B, q):
     return worst
 
 
-def monitor(R, out, log):
+def monitor(R, out, log, quat_only=False, failed_steps=()):
     B, spec, sol = R.B, R.spec, R.sol
     s = B.system
     name = spec["name"]
@@ -133,6 +155,13 @@ def monitor(R, out, log):
         gds.append(ngd)
         worst["g"], worst["g_dot"], worst["gamma"] = max(worst["g"], ng), max(worst["g_dot"], ngd), max(worst["gamma"], nga)
         if k == 0:
+            continue
+        if quat_only:
+            qn = quat_norms(B, q[k])
+            worst["quat"] = max(worst["quat"], qn)
+            if qn > 1e-12:
+                bad("quat_norm", name + "/after_failed_iteration", f"step {k}: a stored orientation quaternion has |norm-1|={qn:.3e} (run continued after failed iterations at steps {sorted(failed_steps)})")
+                return
             continue
         if name in ("Rattle", "BackwardEuler"):
             if ng > newton_bound:
@@ -209,7 +238,8 @@ def monitor(R, out, log):
 def execute(plan, out, log):
     scene = project_velocities(plan["scene"])
     spec = plan["solver"]
-    sim = Sim(log)
+    faulted = plan.get("kind") == "faulted"
+    sim = Sim(log, faults=[tuple(f) for f in plan.get("faults", [])])
     with sim.installed():
         try:
             B = build(scene)
@@ -220,6 +250,22 @@ def execute(plan, out, log):
     if R.exc is not None:
         raise Discard(f"solver_raised:{spec['name']}:{type(R.exc).__name__}")
     sol = R.sol
+    if faulted:
+        for f in sim.fired:
+            out["faults"]["F1_newton_failure" if f[0] == "fsolve" else "F2_fixed_point_failure"] += 1
+        fsteps = {i[1] for i in sim.failed_instances() if i[1] >= 1}
+        if not fsteps or len(sol.t) < 2 or not (np.all(np.isfinite(sol.q)) and np.all(np.isfinite(sol.u))):
+            raise Discard(f"no_fault_fired:{spec['name']}" if not fsteps else f"nonfinite:{spec['name']}")
+        out["steps"] = len(sol.t) - 1
+        out["sim_time"] = float(sol.t[-1] - sol.t[0])
+        if len(sol.t) > min(fsteps):
+            out["probes"]["continued_after_failed_iteration"] += 1
+        check_solution_shape(sol, B.system, spec["name"], out["violations"])
+        if not out["violations"]:
+            monitor(R, out, log, quat_only=True, failed_steps=fsteps)
+        out["nontrivial"] = len(sol.t) > min(fsteps) and any(b["kind"] == "rigid" for b in scene["bodies"])
+        out["abstract"] = repr(("faulted", spec["name"], tuple(sorted({f[0] for f in sim.fired})), len(scene["bodies"])))
+        return
     failed = [f for f in sim.failed_instances() if f[1] >= 1]
     if failed:
         kf = min(f[1] for f in failed)
@@ -251,6 +297,9 @@ def shrink(plan):
     so = plan["solver"]
     if so["steps"] > 3:
         yield dict(plan, solver=dict(so, steps=max(3, so["steps"] // 2)))
+    if plan.get("faults") and len(plan["faults"]) > 1:
+        for i in range(len(plan["faults"])):
+            yield dict(plan, faults=plan["faults"][:i] + plan["faults"][i + 1 :])
     for key in ("forces", "actuators", "laws"):
         for i in range(len(sc.get(key, [])) - 1, -1, -1):
             new = dict(sc)
